@@ -911,6 +911,17 @@ def _constant_driven(prog: Program, mod, f, key: ast.AST) -> bool:
             for e in seq.elts)
     for n in ast.walk(f.node):
         if isinstance(n, (ast.For, ast.comprehension)) and any(isinstance(x, ast.Name) and x.id == key.id for x in ast.walk(n.target)):
+            seq = n.iter
+            if isinstance(seq, ast.Name):
+                local_defs = [a_.value for a_ in ast.walk(f.node) if isinstance(a_, ast.Assign) and len(a_.targets) == 1
+                              and isinstance(a_.targets[0], ast.Name) and a_.targets[0].id == seq.id]
+                seq = (local_defs[0] if len(local_defs) == 1 else None) or prog.const_value(mod, seq.id) or seq
+            if isinstance(n.target, ast.Tuple) and isinstance(seq, (ast.Tuple, ast.List)):
+                pos = next((i for i, x in enumerate(n.target.elts) if isinstance(x, ast.Name) and x.id == key.id), None)
+                if pos is not None and all(isinstance(r_, (ast.Tuple, ast.List)) and len(r_.elts) > pos
+                                           and isinstance(r_.elts[pos], ast.Constant) and isinstance(r_.elts[pos].value, str)
+                                           for r_ in seq.elts):
+                    return True
             return literal_rows(n.iter)
     if key.id in f.params:
         sites = []
